@@ -58,6 +58,49 @@ var pool = strings.Fields(`SELECT FROM WHERE GROUP BY HAVING ORDER LIMIT OFFSET 
 
 var prefixes = []string{"", "SELECT ", "SELECT 1 FROM t ", "SELECT 1 ", "CREATE TABLE t ", "ALTER TABLE t ", "INSERT INTO t ", "WITH ", "SELECT * FROM t GROUP BY ", "CREATE DICTIONARY d (a UInt8) PRIMARY KEY a ", "EXPLAIN ", "SELECT CAST(", "SELECT f(", "SYSTEM ", "SHOW ", "GRANT ", "CREATE ", "SELECT a FROM t ORDER BY a "}
 
+var boundaryNumbers = strings.Fields(`0 1 00 007 0.0 1. .5 0.0000000000000000001 0.00000000000000000000000001 0.99999999999999999999 1e-19 1e19 1e308 1e309 1e-400 4.9e-324
+ 9223372036854775807 9223372036854775808 18446744073709551615 18446744073709551616 340282366920938463463374607431768211456 0x7fffffffffffffff 0xFFFFFFFFFFFFFFFFF
+ 0b101 0b11111111111111111111111111111111111111111111111111111111111111111 0o17 0o7777777777777777777777777777777 1_000 000000000000000000001 000018446744073709551615
+ 123456789012345678901234567890.123456789 0x1p-1074 0x1.8p1 1e+3 1E3 1.5e-3 255 256 65535 65536 4294967296 100000000000000000000 0.1 1.0 10.50`)
+
+var boundaryStrings = []string{`''`, `'a'`, `'it''s'`, `'\''`, `'\\'`, `'\n'`, `'a\tb'`, `'\0'`, `'\x41'`, `'\xff'`, `'é'`, `'日本'`, `'%x%'`, `'a;b'`, `'--c'`, `'/*d*/'`, `' '`,
+	"'" + strings.Repeat("x", 300) + "'", `'{}'`, `'$1'`, `'\e'`, `'\q'`, "'a\nb'", "'line1\r\nline2'", `'a"b'`, "'a`b'", `'NULL'`, `'0'`, `'1e5'`, `'2020-01-01'`, `'\\\''`, `'\b\f\v\a'`}
+
+// tokenTextsKinds is tokenTexts together with the token kind of every text.
+func tokenTextsKinds(src []byte) ([]string, []token.Token) {
+	items := lexer.Tokenize(bytes.NewReader(src))
+	var starts []int
+	var kinds []token.Token
+	for _, it := range items {
+		if it.Token == token.EOF {
+			break
+		}
+		st := it.Pos.Offset - 1
+		for st > 0 && st < len(src) && src[st]&0xC0 == 0x80 {
+			st--
+		}
+		if st < 0 {
+			st = 0
+		}
+		starts = append(starts, st)
+		kinds = append(kinds, it.Token)
+	}
+	var out []string
+	var ks []token.Token
+	for i, st := range starts {
+		end := len(src)
+		if i+1 < len(starts) {
+			end = starts[i+1]
+		}
+		if st > end {
+			continue
+		}
+		out = append(out, strings.TrimSpace(string(src[st:end])))
+		ks = append(ks, kinds[i])
+	}
+	return out, ks
+}
+
 // tokenSpans returns the source text of every non-comment token and the gaps before them.
 func tokenTexts(src []byte) []string {
 	items := lexer.Tokenize(bytes.NewReader(src))
@@ -279,6 +322,37 @@ func gen(args []string) {
 		}
 		for _, p := range prefixes {
 			rec(p, *n)
+		}
+	case "litsub":
+		// literal substitution: a NUMBER / STRING token of a (valid) corpus statement replaced by a boundary literal of
+		// the same class; the statement stays valid, so the boundary value reaches the printers and the marshaller
+		data, err := os.ReadFile(*corpus)
+		if err != nil {
+			fmt.Fprintln(os.Stderr, err)
+			os.Exit(2)
+		}
+		lines := strings.Split(strings.TrimRight(string(data), "\n"), "\n")
+		for i := 0; i < *n; i++ {
+			l := lines[r.intn(len(lines))]
+			toks, kinds := tokenTextsKinds([]byte(l))
+			var idx []int
+			for j, k := range kinds {
+				if k == token.NUMBER || k == token.STRING {
+					idx = append(idx, j)
+				}
+			}
+			if len(idx) == 0 {
+				continue
+			}
+			for c := 0; c < 1+r.intn(2); c++ {
+				j := idx[r.intn(len(idx))]
+				if kinds[j] == token.NUMBER {
+					toks[j] = boundaryNumbers[r.intn(len(boundaryNumbers))]
+				} else {
+					toks[j] = boundaryStrings[r.intn(len(boundaryStrings))]
+				}
+			}
+			fmt.Fprintln(out, hx([]byte(strings.Join(toks, " "))))
 		}
 	case "nest":
 		size := *n
